@@ -99,6 +99,39 @@ fn main() {
             emit(format!("QPool {}", ws.iter().map(|w| w.to_string()).collect::<Vec<_>>().join(",")), o);
         }
     }
+    // the host-side copy of the scheme (native/src/value.rs) and the stdlib's path to the checked constructor
+    {
+        use aelys_native as nat;
+        let nobs = |w: u64| -> Vec<i128> {
+            let f = nat::value_as_float(w);
+            vec![b(nat::value_is_null(w)), b(nat::value_is_int(w)), b(nat::value_is_float(w)), b(nat::value_is_bool(w)), b(nat::value_is_ptr(w)),
+                 nat::value_as_int(w) as i128,
+                 if f.is_nan() { -1 } else { f.to_bits() as i128 },
+                 b(nat::value_as_bool(w)),
+                 if nat::value_is_ptr(w) { nat::value_as_ptr(w) as i128 } else { 0 }]
+        };
+        let with = |w: u64| -> Vec<i128> { let mut o = vec![w as i128]; o.extend(nobs(w)); o };
+        for &n in &ints {
+            emit(format!("QNatInt {}", zc(n as i128)), with(nat::value_int(n)));
+            emit(format!("QNat {}", Value::int(n).raw_bits()), nobs(Value::int(n).raw_bits()));
+        }
+        for &w in &fl {
+            emit(format!("QNatFloat {}", w), with(nat::value_float(f64::from_bits(w))));
+            emit(format!("QNat {}", Value::float(f64::from_bits(w)).raw_bits()), nobs(Value::float(f64::from_bits(w)).raw_bits()));
+        }
+        emit("QNatBool true".into(), with(nat::value_bool(true)));
+        emit("QNatBool false".into(), with(nat::value_bool(false)));
+        emit("QNatNull".into(), with(nat::value_null()));
+        for p in [0u64, 1, 42, (1 << 47), (1 << 48) - 1] {
+            emit(format!("QNat {}", Value::ptr(p as usize).raw_bits()), nobs(Value::ptr(p as usize).raw_bits()));
+        }
+        if let Ok(vm) = aelys_driver::new_vm() {
+            for &n in &ints {
+                let r = aelys_runtime::stdlib::helpers::make_int_checked(&vm, n, "verif");
+                emit(format!("QMkInt {}", zc(n as i128)), match r { Ok(v) => { let mut o = vec![1]; o.extend(ctor(v.raw_bits())); o } Err(_) => vec![0] });
+            }
+        }
+    }
     // equality: ints x floats x specials
     let mut eqw: Vec<u64> = Vec::new();
     for n in [0i64, 1, -1, 3, (1 << 47) - 1, -(1 << 47), 1 << 40, 123456789] { eqw.push(Value::int(n).raw_bits()); }
